@@ -187,7 +187,7 @@ example :
   decide +kernel
 
 /-- the GraphQL member loop terminates and never raises -/
-theorem graphql_enum_total (E : Env) (cfg : Cfg) (names : List (List Char)) (hp : PrefixOK cfg) (hE : CaseOK E) :
+theorem graphql_enum_total (E : Env) (cfg : Cfg) (names : List (List Char)) (hp : PrefixStart cfg) (hE : CaseOK E) :
     parseGraphqlEnum E cfg names ≠ .outOfFuel :=
   fold_terminates hp hE _ _ _
 
@@ -197,8 +197,9 @@ example : parseEnum pyEnv {} ⟨some strT, [.str ['m', 'r', 'o'], .str ['i', 'f'
           (['a', '_'], .lit ['\'', 'a', ' ', '\'']), (['a', '_', '_', '1'], .lit ['\'', 'a', '-', '\''])], false) := by
   decide +kernel
 
-/-- the member loop terminates: with a legal prefix `parse_enum` never runs out of fuel -/
-theorem enum_members_terminate (E : Env) (cfg : Cfg) (o : EnumObj) (hp : PrefixOK cfg) (hE : CaseOK E) :
+/-- the member loop terminates: for every prefix the resolver's constructor admits (`PrefixStart`, C07)
+`parse_enum` never runs out of fuel -/
+theorem enum_members_terminate (E : Env) (cfg : Cfg) (o : EnumObj) (hp : PrefixStart cfg) (hE : CaseOK E) :
     parseEnum E cfg o ≠ .outOfFuel := by
   unfold parseEnum
   intro hc
